@@ -47,6 +47,7 @@ type SpecFn struct {
 	Ret    string
 	Body   *Clause // nil: uninterpreted
 	Rec    bool
+	Raw    bool // declared by raw SMT in the prelude: keep the name
 	Pkg    string
 	File   string
 	Line   int
@@ -82,6 +83,11 @@ type Contracts struct {
 	ClosedIfaces map[string]bool   // pkgpath.Name
 	FieldInvs    map[string]Clause // pkgpath.Type.field -> invariant over 'value'
 	Inline       map[string]bool   // pkgpath::funcname : small helpers inlined at call sites
+	SortAliases  map[string]SortAlias
+}
+
+type SortAlias struct {
+	Name, Pkg, GoExpr string
 }
 
 type GlobalFact struct {
@@ -92,7 +98,7 @@ type GlobalFact struct {
 var clauseKeywords = map[string]bool{
 	"func": true, "requires": true, "ensures": true, "modifies": true, "panics": true, "maypanic": true,
 	"loop": true, "invariant": true, "decreases": true, "spec": true, "lemma": true, "induct": true,
-	"smt": true, "smtlate": true, "closed": true, "fieldinv": true, "inline": true, "global": true, "package": true, "ghost": true, "type": true, "trusted": true, "props": true, "use": true, "hdruse": true, "axiom": true, "pattern": true, "opaque": true,
+	"smt": true, "smtlate": true, "closed": true, "fieldinv": true, "inline": true, "sort": true, "global": true, "package": true, "ghost": true, "type": true, "trusted": true, "props": true, "use": true, "hdruse": true, "axiom": true, "pattern": true, "opaque": true,
 }
 
 var reFuncHdr = regexp.MustCompile(`^func\s+(.+)$`)
@@ -190,6 +196,13 @@ func (cs *Contracts) loadContractFile(path string, pkg string, goFile bool) erro
 			curF, curLoop, curL = nil, nil, nil
 		case "smtlate":
 			cs.RawSMT = append(cs.RawSMT, "late:"+rest)
+			curF, curLoop, curL = nil, nil, nil
+		case "sort":
+			i := strings.Index(rest, " ")
+			if i < 0 {
+				return fmt.Errorf("%s:%d: sort NAME GoType", path, l.no)
+			}
+			cs.SortAliases[rest[:i]] = SortAlias{rest[:i], pkg, strings.TrimSpace(rest[i:])}
 			curF, curLoop, curL = nil, nil, nil
 		case "closed":
 			cs.ClosedIfaces[pkg+"."+rest] = true
@@ -455,7 +468,7 @@ func splitTopLevel(s string, sep rune) []string {
 
 func newContracts() *Contracts {
 	return &Contracts{Funcs: map[string]*FuncContract{}, Immut: map[string]bool{}, Closed: map[string][]string{},
-		ClosedIfaces: map[string]bool{}, FieldInvs: map[string]Clause{}, Inline: map[string]bool{}}
+		ClosedIfaces: map[string]bool{}, FieldInvs: map[string]Clause{}, Inline: map[string]bool{}, SortAliases: map[string]SortAlias{}}
 }
 
 // loadSpecDir loads *.spec files (trusted / prelude) from a directory, in name order.
